@@ -14,7 +14,8 @@ from . import typestate as ts
 
 
 class Variant:
-    def __init__(self, file, desc, source, expect, props, site=None):
+    def __init__(self, file, desc, source, expect, props, site=None, more=None):
+        self.more = dict(more or {})      # further files changed by the same variant: file -> source
         self.file = file
         self.desc = desc
         self.source = source
@@ -371,9 +372,107 @@ def gen_benign_copies(sources):
             break
 
 
+# ----------------------------------------------------------------------
+# the kept seeded changes (seeded/<id>/patch.diff) are part of the catalogue: every check that reported a change when
+# the seed matrix was last refreshed must keep reporting it
+def gen_seeded(sources):
+    import json
+    import os
+    import shutil
+    import subprocess
+    import tempfile
+    here = os.path.dirname(os.path.dirname(os.path.abspath(__file__)))
+    base = os.path.join(here, 'seeded')
+    if not os.path.isdir(base):
+        return
+    for sid in sorted(os.listdir(base)):
+        d = os.path.join(base, sid)
+        patch, meta = os.path.join(d, 'patch.diff'), os.path.join(d, 'meta.json')
+        if not (os.path.exists(patch) and os.path.exists(meta)):
+            continue
+        m = json.load(open(meta))
+        props = m.get('checks_reporting_violation') or []
+        if not props:
+            continue
+        tmp = tempfile.mkdtemp(prefix='sa_seedvar_')
+        try:
+            os.makedirs(os.path.join(tmp, 'pytenet'))
+            for f, text in sources.items():
+                with open(os.path.join(tmp, 'pytenet', f), 'w', encoding='utf-8') as fh:
+                    fh.write(text)
+            r = subprocess.run(['git', 'apply', '--include=pytenet/*', patch], cwd=tmp, capture_output=True, text=True)
+            if r.returncode != 0:
+                continue            # made against another revision of the file
+            changed = {}
+            for f, text in sources.items():
+                new = open(os.path.join(tmp, 'pytenet', f), encoding='utf-8').read()
+                if new != text:
+                    changed[f] = new
+            if not changed:
+                continue
+            first = sorted(changed)[0]
+            yield Variant(first, f'seeded change {sid} ({m.get("breaks_property")})', changed[first], 'violation', props,
+                          site=sid, more={f: t for f, t in changed.items() if f != first})
+        finally:
+            shutil.rmtree(tmp, ignore_errors=True)
+
+
+# ----------------------------------------------------------------------
+# single textual edits (anchor must occur exactly once); rules added after the AST generators were written
+TEXT_EDITS = [
+    # (file, anchor, replacement, expectation, properties, description)
+    ('bond_ops.py', 'return np.where(s > tol)[0]', 'return np.where(s >= tol)[0]', 'violation', ['C12', 'C13'],
+     'retained_bond_indices: non-strict comparison'),
+    ('bond_ops.py', 'return np.where(s > tol)[0]', 'return np.where(tol < s)[0]', 'silent', ['C12', 'C13'],
+     'retained_bond_indices: comparison written the other way round (benign)'),
+    ('bond_ops.py', 's = (s / w)**2', 's = s**2 / w', 'violation', ['C12', 'C13'], 'retained_bond_indices: norm not squared'),
+    ('bond_ops.py', 's = (s / w)**2', 's = s**2 / w**2', 'silent', ['C12', 'C13'],
+     'retained_bond_indices: same weights, written differently (benign)'),
+    ('bond_ops.py', 's = (s / w)**2', 's = s / w', 'violation', ['C12', 'C13'], 'retained_bond_indices: weights not squared'),
+    ('bond_ops.py', 's[sort_idx] = np.cumsum(s[sort_idx])', 's = np.cumsum(s[::-1])[::-1]', 'violation', ['C12', 'C13'],
+     'retained_bond_indices: accumulation assumes a sorted input'),
+    ('bond_ops.py', 'sort_idx = np.argsort(s)', 'sort_idx = np.argsort(-s)', 'violation', ['C12', 'C13'],
+     'retained_bond_indices: accumulation from the largest value'),
+    ('bond_ops.py', 'idx = retained_bond_indices(s, tol)', 'idx = retained_bond_indices(s**2, tol)', 'violation', ['C12', 'C13'],
+     'split_matrix_svd: squared values handed to the truncation rule'),
+    ('krylov.py', '    j = numiter-1\n    w = Afunc(V[j])\n    alpha[j]', '    j += 1\n    w = Afunc(V[j])\n    alpha[j]', 'violation', ['C14', 'C08', 'C10'],
+     'lanczos_iteration: final step uses the stale loop variable'),
+    ('krylov.py', 'return V @ (np.linalg.norm(v) * expm(dt*H)[:, 0])', 'return V @ expm(dt*H)[:, 0]', 'violation', ['C08', 'C09'],
+     'expm_krylov: norm of the start vector not restored'),
+    ('krylov.py', 'return V @ (np.linalg.norm(v) * expm(dt*H)[:, 0])', 'return np.linalg.norm(v) * (V @ expm(dt*H)[:, 0])', 'silent',
+     ['C08', 'C09', 'C14'], 'expm_krylov: norm factor moved outside (benign)'),
+    ('krylov.py', '    vstart = vstart / nrmv\n\n    alpha', '    alpha', 'violation', ['C14', 'C09'],
+     'lanczos_iteration: start vector not normalised'),
+    ('opgraph.py', 'nids_prev = nids_active_d[-1 if direction == 1 else 0]', 'nids_prev = nids_active_d[-1]', 'violation', ['C17'],
+     'from_automaton: backward pass reads the wrong end of the layer list'),
+    ('opgraph.py', 'nids_prev = nids_active_d[-1 if direction == 1 else 0]', 'nids_prev = nids_active_d[0 if direction == 0 else -1]',
+     'silent', ['C17'], 'from_automaton: frontier index written the other way round (benign)'),
+    ('opgraph.py', '            op = np.kron(op_sub, op_loc)', '            op = np.kron(op_loc, op_sub)', 'violation', ['C17'],
+     '_subgraph_as_matrix: Kronecker order swapped for direction 0'),
+    ('opchain.py', 'op = np.kron(op, opmap[oid])', 'op = np.kron(opmap[oid], op)', 'violation', ['C17'],
+     'OpChain.as_matrix: Kronecker order reversed'),
+    ('optree.py', 'op_sum = np.kron(op_sum, np.identity(m))', 'op_sum = np.kron(np.identity(m), op_sum)', 'violation', ['C17'],
+     '_subtree_as_matrix: identity padding on the left'),
+    ('optree.py', 'op_sum = op_sum + op', 'op_sum = op + op_sum', 'silent', ['C17'], '_subtree_as_matrix: summands swapped (benign)'),
+    ('minimization.py', 'for i in reversed(range(L - 1)):', 'for i in reversed(range(L - 2)):', 'violation', ['C10'],
+     'two-site DMRG: right-to-left sweep skips the last pair'),
+]
+
+
+def gen_text_edits(sources):
+    for file, old, new, expect, props, desc in TEXT_EDITS:
+        if expect == 'skip':
+            continue
+        src = sources[file]
+        old_, new_ = old.replace('\\n', '\n'), new.replace('\\n', '\n')
+        if src.count(old_) != 1:
+            continue
+        yield Variant(file, desc, src.replace(old_, new_), expect, props, site=desc.split(':')[0])
+
+
 GENERATORS = [gen_delete_increments, gen_drop_copies, gen_shift_slots, gen_dt_fractions, gen_swap_split_direction,
               gen_kernel_axes, gen_driver_swaps, gen_merge_guards, gen_family_tables, gen_dispatch, gen_krylov_slices,
-              gen_block_perms, gen_local_step_axes, gen_benign_renames, gen_benign_copies]
+              gen_block_perms, gen_local_step_axes, gen_benign_renames, gen_benign_copies, gen_text_edits, gen_seeded]
 
 
 def all_variants(sources, only_props=None, rename_every=3):
